@@ -766,9 +766,28 @@ def return_set(fn):
             leaves(e["f"])
         elif e.get("k") == "enum":
             out.add((e["name"], e["val"]))
+        elif e.get("k") == "var" and not e.get("param") and e.get("name") not in seen_vars:
+            # a local result variable: everything that is ever stored in it (initialiser and assignments)
+            seen_vars.add(e.get("name"))
+            defs = 0
+            for _, _, d in fn.all_events():
+                if d.get("k") == "decl" and d.get("var") == e.get("name") and d.get("init") is not None:
+                    leaves(d["init"])
+                    defs += 1
+                elif d.get("k") == "write" and d.get("op") == "=" and P(d["lhs"]) == e.get("name"):
+                    leaves(d["rhs"])
+                    defs += 1
+                elif d.get("k") == "call" and d.get("op") == "=" and d.get("recv") is not None and P(d["recv"]) == e.get("name") and d.get("args"):
+                    leaves(d["args"][0])
+                    defs += 1
+            if not defs:
+                raise AnalysisBroken("%s returns local %s, which is never assigned a constant" % (fn.qname, e.get("name")))
+        elif e.get("k") == "var" and e.get("name") in seen_vars:
+            pass
         else:
             raise AnalysisBroken("%s returns a non-constant (%s): return-set rule cannot be applied" % (fn.qname, T(e)))
     n = 0
+    seen_vars = set()
     for b, i, ev in fn.all_events():
         if ev.get("k") == "return" and ev.get("e") is not None:
             leaves(ev["e"])
